@@ -87,6 +87,23 @@ def execute(mod, choices=None, seed=None, by_label=None):
                 res['violation'] = info
             else:
                 res['aborted'] = info
+        except Exception as e:      # noqa: BLE001
+            # An exception that comes out of pokerkit itself while the scheduler or a monitor reads a public query or
+            # property (can_*, *_index, pots, ...) is the engine's failure, not the harness's: a query must never raise.
+            tb = traceback.extract_tb(e.__traceback__)
+            if not tb or '/pokerkit/' not in tb[-1].filename or '/verif/' in tb[-1].filename:
+                raise
+            caller = next((fr.name for fr in reversed(tb) if '/pokerkit/' not in fr.filename), '?')
+            info = {'kind': 'crash', 'monitor': 'engine_crash',
+                    'message': f'{type(e).__name__}: {e} raised by {tb[-1].name} (pokerkit) while the simulator evaluated a public '
+                               f'query or property in {caller}',
+                    'sig': {'monitor': 'engine_crash', 'exc': type(e).__name__, 'where': tb[-1].name, 'in_query': True}}
+            ctx.notes.setdefault('query_crash', traceback.format_exc()[-1500:])
+            if getattr(mod, 'crash_is_violation', False) or getattr(mod, 'query_crash_is_violation', False):
+                res['ok'] = False
+                res['violation'] = info
+            else:
+                res['aborted'] = info
     res['choices'] = ch.values
     res['labelled'] = ch.labelled
     res['grouped'] = ch.grouped
